@@ -218,6 +218,14 @@ pub fn check_conn(case: &StreamCase, stream: &[u8], cuts: &[usize]) -> R {
     boundaries.push(stream.len() - rest);
     for ch in chunks(stream, cuts) {
         if ch.is_empty() {
+            // a zero-length receive buffer is a chunk like any other: it consumes nothing and must not disturb a partial frame
+            match a.recv_once(ch) {
+                Ok((n, e)) => {
+                    ensure!(n == 0, "C09.overconsumed", &sig, "recv over an empty buffer reports {} consumed bytes", n);
+                    ta.extend(e);
+                }
+                Err(_) => return Ok(()),
+            }
             continue;
         }
         let calls = match recv_all(a.as_mut(), ch) {
@@ -279,6 +287,181 @@ pub fn check_conn(case: &StreamCase, stream: &[u8], cuts: &[usize]) -> R {
     }
     ensure!(a.state() == b.state(), "C09.trace_ne_whole_frame_trace", format!("{sig}/state"), "final states differ: {:?}", state_diff(&a.state(), &b.state(), &[]));
     Ok(())
+}
+
+/// A local API call made between two receive buffers while a frame is half received.
+#[derive(Clone, Copy, Debug, PartialEq, Eq, Hash, Serialize, Deserialize)]
+pub enum LocalOp {
+    ConnackAccept,
+    ConnackRefuse,
+    Pingreq,
+    PublishQ0,
+    PublishQ1,
+    Disconnect,
+    AcquireId,
+    PingInterval,
+    AutoPubOff,
+}
+
+#[derive(Clone, Debug, Serialize, Deserialize)]
+pub struct InterCase {
+    pub cfg: ConnCfg,
+    pub v: V,
+    pub items: Vec<Item>,
+    /// selector of the cut position (mapped to a position strictly inside a frame when one exists)
+    pub cut: u16,
+    pub local: LocalOp,
+}
+
+fn do_local(c: &mut dyn Conn, v: V, op: LocalOp) -> Result<Vec<NEvent>, String> {
+    let send = |c: &mut dyn Conn, ap: AP| -> Result<Vec<NEvent>, String> { c.send(&ap)? };
+    match op {
+        LocalOp::ConnackAccept => send(c, AP::Connack { v, sp: false, code: 0, props: vec![] }),
+        LocalOp::ConnackRefuse => send(c, AP::Connack { v, sp: false, code: if v == V::V5 { 0x87 } else { 5 }, props: vec![] }),
+        LocalOp::Pingreq => send(c, AP::Pingreq { v }),
+        LocalOp::PublishQ0 => send(c, AP::Publish { v, dup: false, qos: 0, retain: false, topic: "l/0".into(), pid: None, props: vec![], payload: vec![7] }),
+        LocalOp::PublishQ1 => match c.acquire()? {
+            Ok(id) => send(c, AP::Publish { v, dup: false, qos: 1, retain: false, topic: "l/1".into(), pid: Some(id), props: vec![], payload: vec![8] }),
+            Err(_) => Ok(vec![]),
+        },
+        LocalOp::Disconnect => send(c, AP::Disconnect { v, rc: if v == V::V5 { Some(0) } else { None }, props: None }),
+        LocalOp::AcquireId => c.acquire().map(|_| vec![]),
+        LocalOp::PingInterval => c.set_pingreq_send_interval(Some(3000)),
+        LocalOp::AutoPubOff => {
+            c.set_auto_pub_response(false);
+            Ok(vec![])
+        }
+    }
+}
+
+/// (3) a local call between two receive buffers: the half-received frame is unaffected. Object A gets the stream cut at one
+/// position with the local call between the two buffers; object B gets the frames completed by the first buffer one at a time,
+/// then the same local call, then the remaining frames one at a time.
+pub fn check_interleaved(case: &InterCase, st: &mut Stats) -> R {
+    let sig = format!("interleaved/{:?}/{:?}/{:?}", case.cfg.role, case.cfg.ver, case.local);
+    let stream = encode_items(&case.items, case.v, case.cfg.idw);
+    let starts = frame_starts(&stream);
+    let (frames, rest) = refcodec::frame(&stream);
+    if stream.len() < 2 {
+        return Ok(());
+    }
+    // candidate positions strictly inside a frame
+    let mut boundaries: Vec<usize> = starts.clone();
+    boundaries.push(stream.len() - rest);
+    let inside: Vec<usize> = (1..stream.len()).filter(|p| !boundaries.contains(p)).collect();
+    let cut = if inside.is_empty() { pick_idx(case.cut, stream.len() - 1) + 1 } else { inside[pick_idx(case.cut, inside.len())] };
+    let mut a = new_conn(case.cfg);
+    let mut b = new_conn(case.cfg);
+    prelude(a.as_mut(), case.v).map_err(|e| Fail::new("C09.trace_ne_whole_frame_trace", format!("{sig}/prelude"), e))?;
+    prelude(b.as_mut(), case.v).map_err(|e| Fail::new("C09.trace_ne_whole_frame_trace", format!("{sig}/prelude"), e))?;
+    let mut ta: Vec<NEvent> = Vec::new();
+    let mut tb: Vec<NEvent> = Vec::new();
+    // A
+    match recv_all(a.as_mut(), &stream[..cut]) {
+        Ok(c) => ta.extend(flat(&c)),
+        Err(e) if e.starts_with("WEDGE") => return Err(Fail::new("C09.overconsumed", format!("{sig}/no_progress"), e)),
+        Err(_) => return Ok(()),
+    }
+    match do_local(a.as_mut(), case.v, case.local) {
+        Ok(e) => ta.extend(e),
+        Err(_) => return Ok(()),
+    }
+    match recv_all(a.as_mut(), &stream[cut..]) {
+        Ok(c) => ta.extend(flat(&c)),
+        Err(e) if e.starts_with("WEDGE") => return Err(Fail::new("C09.overconsumed", format!("{sig}/no_progress"), e)),
+        Err(_) => return Ok(()),
+    }
+    // B
+    let mut off = 0;
+    let mut local_done = false;
+    for f in &frames {
+        let len = match f {
+            Frame::Complete { total, .. } => *total,
+            Frame::BadLength => 5,
+        };
+        if !local_done && off + len > cut {
+            match do_local(b.as_mut(), case.v, case.local) {
+                Ok(e) => tb.extend(e),
+                Err(_) => return Ok(()),
+            }
+            local_done = true;
+        }
+        match recv_all(b.as_mut(), &stream[off..off + len]) {
+            Ok(calls) => tb.extend(flat(&calls)),
+            Err(e) if e.starts_with("WEDGE") => return Err(Fail::new("C09.overconsumed", format!("{sig}/no_progress"), e)),
+            Err(_) => return Ok(()),
+        }
+        off += len;
+    }
+    if !local_done {
+        match do_local(b.as_mut(), case.v, case.local) {
+            Ok(e) => tb.extend(e),
+            Err(_) => return Ok(()),
+        }
+    }
+    if off < stream.len() {
+        match recv_all(b.as_mut(), &stream[off..]) {
+            Ok(calls) => tb.extend(flat(&calls)),
+            Err(_) => return Ok(()),
+        }
+    }
+    let (na, nb) = (normalise(ta), normalise(tb));
+    if na != nb {
+        let i = na.iter().zip(nb.iter()).position(|(x, y)| x != y).unwrap_or(na.len().min(nb.len()));
+        return Err(Fail::new(
+            "C09.trace_ne_whole_frame_trace",
+            &sig,
+            format!(
+                "stream {} cut at {} with {:?} called between the two buffers: event #{} differs\n  chunked: {}\n  whole  : {}",
+                hex_trunc(&stream, 64),
+                cut,
+                case.local,
+                i,
+                na.get(i).map(|e| e.brief()).unwrap_or_else(|| "<end>".into()),
+                nb.get(i).map(|e| e.brief()).unwrap_or_else(|| "<end>".into())
+            ),
+        ));
+    }
+    ensure!(a.state() == b.state(), "C09.trace_ne_whole_frame_trace", format!("{sig}/state"), "final states differ: {:?}", state_diff(&a.state(), &b.state(), &[]));
+    if !inside.is_empty() {
+        st.nontrivial(&(&stream, cut, case.local));
+        st.class("local_call_inside_frame");
+        if nb.iter().any(|e| matches!(e, NEvent::Send { .. })) {
+            st.class("local_call_inside_frame_and_something_sent");
+        }
+        st.sample(|| json!({"role": format!("{:?}", case.cfg.role), "version": case.v.name(), "frames": frames.len(), "cut": cut, "local_call": format!("{:?}", case.local), "stream": hex_trunc(&stream, 40)}));
+    }
+    Ok(())
+}
+
+pub fn inter_strategy() -> BoxedStrategy<InterCase> {
+    cfg_strategy()
+        .prop_flat_map(move |(cfg, v)| {
+            let local = proptest::sample::select(vec![
+                LocalOp::ConnackAccept,
+                LocalOp::ConnackAccept,
+                LocalOp::ConnackRefuse,
+                LocalOp::Pingreq,
+                LocalOp::PublishQ0,
+                LocalOp::PublishQ1,
+                LocalOp::Disconnect,
+                LocalOp::AcquireId,
+                LocalOp::PingInterval,
+                LocalOp::AutoPubOff,
+            ]);
+            (proptest::collection::vec(item(cfg.role, v, cfg.idw, false), 1..5), any::<u16>(), local, any::<u8>()).prop_map(move |(mut items, cut, local, hs)| {
+                // most streams start with the handshake packet the role expects, so that the local call meets a live connection
+                if hs % 4 != 0 {
+                    let first = match cfg.role {
+                        Role::Client => AP::Connack { v, sp: false, code: 0, props: vec![] },
+                        _ => AP::Connect { v, clean: hs % 2 == 0, keep_alive: if hs % 8 < 4 { 0 } else { 10 }, client_id: "c".into(), will: None, user: None, pass: None, props: vec![] },
+                    };
+                    items.insert(0, Item::Packet(first));
+                }
+                InterCase { cfg, v, items, cut, local }
+            })
+        })
+        .boxed()
 }
 
 pub fn test(case: &StreamCase, st: &mut Stats) -> R {
@@ -437,7 +620,8 @@ pub fn run(ctx: &Ctx) -> Report {
     let mut rep = Report::new(
         "streams = 1..6 items (valid packets of every kind for the role, frames with a 5-byte Remaining Length, raw garbage, PUBLISH bodies at the Remaining-Length width boundaries) \
          x partitions (single bytes, random cuts, cuts inside fixed header / Remaining Length); oracle (1) PacketBuilder::feed == reference framer, one result per call, no over-read, resumes after bad length; \
-         (2) chunk-fed connection trace == whole-frame-fed trace and framer idle at boundaries; plus ALL 1- and 2-cut partitions of short streams. \
+         (2) chunk-fed connection trace == whole-frame-fed trace and framer idle at boundaries; plus ALL 1- and 2-cut partitions of short streams (incl. zero-length buffers); \
+         (3) a local API call (CONNACK, PINGREQ, PUBLISH, DISCONNECT, acquire, option change) between two buffers while a frame is half received changes nothing: trace and state equal the whole-frame run with the call at the same place. \
          non-trivial = >= 2 frames and a cut strictly inside a header/Remaining Length; distinct by (stream, cuts)",
     );
     let big = ctx.tier == Tier::Thorough;
@@ -447,6 +631,9 @@ pub fn run(ctx: &Ctx) -> Report {
     let shorts = short_streams(ctx.tier.pick(1000, 10_000) as usize, ctx.seed);
     let (st, v) = enumerate(ctx, "c09.allcuts", &shorts, test_all_partitions);
     rep.absorb("all_1_and_2_cut_partitions", st, v, true);
+    let n3 = ctx.tier.pick(150_000, 1_000_000);
+    let (st, v) = search(ctx, "c09.interleaved", n3, inter_strategy, check_interleaved);
+    rep.absorb("local_call_between_two_buffers", st, v, false);
     rep.exhaustive = false;
     rep.assumptions.push("a panic inside recv ends a case here and is decided by C05".into());
     rep
@@ -458,6 +645,10 @@ pub fn replay(check: &str, case: &serde_json::Value) -> Option<R> {
         "c09.random" => {
             let c: StreamCase = serde_json::from_value(case.clone()).ok()?;
             Some(test(&c, &mut st))
+        }
+        "c09.interleaved" => {
+            let c: InterCase = serde_json::from_value(case.clone()).ok()?;
+            Some(check_interleaved(&c, &mut st))
         }
         "c09.allcuts" => {
             let c: ShortStream = serde_json::from_value(case.clone()).ok()?;
